@@ -305,4 +305,6 @@ def run(ck, tier):
     ck.guard(r11_slaves_lists_every_hosted_unit, ck, cx)
     ck.guard(r12_do_exception_contract, ck, cx)
     ck.guard(r13_unit_id_of_the_delivered_frame, ck, cx)
+    from .. import options as _opt
+    ck.guard(_opt.rule_options_read_at_construction, ck, cx, 'R14', ('pymodbus.server.sync', 'pymodbus.server.async_io', 'pymodbus.server.asynchronous'), ('IgnoreMissingSlaves', 'broadcast_enable'), 'the broadcast / missing-unit policy the application configured is ignored by this front-end')
     return cx.idx
